@@ -29,7 +29,7 @@ ASSUMPTIONS = [
 BUDGET = {"quick": 75, "thorough": 900}
 ROUNDS = {"thorough": 8}
 FLOORS = {"pairs_compared": {"quick": 1500, "thorough": 15000}, "rerootings": {"quick": 200, "thorough": 2000},
-          "relations": 8}
+          "relations": 12}
 
 
 def cases(tier, seed):
@@ -43,6 +43,7 @@ def cases(tier, seed):
         k = kinds[i % len(kinds)]
         tree_kind = "unrooted" if i % 5 < 3 else "time"
         c = phylo.random_case(rng, t, k, None, tree_kind, ncols=int(rng.integers(2, 9)))
+        c.pop("indices", None)  # a column subset is tied to the column order: the rewritings below would not denote the same data
         if i % 40 == 0:
             t3 = rt.random_topology(3, rng)
             c = phylo.random_case(rng, t3, "MG94", "constant", tree_kind, ncols=2)
@@ -166,6 +167,24 @@ def orbit(case):
             v = copy.deepcopy(case)
             v["newick"] = tri
             out.append(("trifurcation", v, 1.0))
+    # 9 a multifurcation inside the tree is the same tree as its resolution by zero-length branches
+    if unrooted and case.get("bl_mode", "keep") == "keep":
+        root = rt.parse_newick(case["newick"])
+        cand = [nd for nd in rt.postorder(root) if nd.parent is not None and nd.parent.parent is not None and not nd.is_leaf()]
+        if cand:
+            y = cand[int(rng.integers(len(cand)))]
+            y.length = 0.0
+            va = copy.deepcopy(case)
+            va["newick"] = rt.to_newick(root)
+            x = y.parent
+            i = x.children.index(y)
+            x.children[i:i + 1] = y.children
+            for ch in y.children:
+                ch.parent = x
+            vb = copy.deepcopy(case)
+            vb["newick"] = rt.to_newick(root)
+            out.append(("polytomy-resolved", va, None))
+            out.append(("polytomy", vb, "polytomy-resolved"))
     return out
 
 
@@ -197,13 +216,46 @@ def run_case(case):
                 continue
             raise
         x = float(tt.as_np(val2, "C02:not-a-tensor").reshape(-1)[0])
+        if mult is None:
+            held = x  # a member of a pair that is compared with its partner, not with the base
+            continue
         C["pairs_compared"] += 1
         if name == "reroot":
             C["rerootings"] += 1
-        exp = mult * base
+        exp = held if isinstance(mult, str) else mult * base
+        mult = 1.0 if isinstance(mult, str) else mult
         if not np.isfinite(x) or abs(x - exp) > 1e-10 * max(1.0, abs(exp)):
             V.append(tt.viol("C02:" + name, "%s: log-likelihood %.15g, expected %.15g (= %g x base) [subst %s, tree %s, tips %s]"
                              % (name, x, exp, mult, sk, case["tree"], "states" if case["use_tip_states"] else "partials"), case=case, variant=v))
+    # partitions: site patterns over complementary column subsets of the *same* alignment object, sharing tree and models,
+    # add up to the likelihood of the whole alignment
+    ncols = len(next(iter(case["seqs"].values())))
+    if case["datatype"]["kind"] != "codon" and ncols >= 2:
+        spec = phylo.likelihood_json(case)
+        parts = [("::2", "1::2"), ("::3", "1::3", "2::3"), (":1", "1:")][int(ncols) % 3]
+        for k, ind in enumerate(parts):
+            lk = {"id": "like.%d" % k, "type": "TreeLikelihoodModel", "tree_model": "tree", "site_model": "site", "substitution_model": "sm",
+                  "site_pattern": {"id": "sp.%d" % k, "type": "SitePattern", "alignment": "aln", "indices": ind}}
+            for key in ("use_ambiguities", "use_tip_states"):
+                if case.get(key):
+                    lk[key] = True
+            if "branch_model" in spec[1]:
+                lk["branch_model"] = "clock"
+            spec.append(lk)
+        try:
+            _, dicp = tt.load(spec)
+            whole = float(tt.as_np(dicp["like"](), "C02:not-a-tensor").reshape(-1)[0])
+            pieces = [float(tt.as_np(dicp["like.%d" % k](), "C02:not-a-tensor").reshape(-1)[0]) for k in range(len(parts))]
+            C["pairs_compared"] += 1
+            if "partitions" not in C["relations"]:
+                C["relations"].append("partitions")
+            if not np.isfinite(sum(pieces)) or abs(sum(pieces) - whole) > 1e-10 * max(1.0, abs(whole)):
+                V.append(tt.viol("C02:partitions", "site patterns %s of one alignment give %s, together %.15g; the whole alignment gives %.15g" % (list(parts), pieces, sum(pieces), whole), case=case, parts=list(parts)))
+        except Exception as e:
+            if tt_blame_subject(e):
+                V.append(tt.viol("C02:partitions:raises:%s" % type(e).__name__, "partitioned specification raises %s: %s" % (type(e).__name__, str(e)[:200]), case=case))
+            else:
+                raise
     fp = hashlib.md5(repr(case).encode()).hexdigest()[:16] if c01._nontrivial(case) else None
     sample = None
     if sk not in ("LG", "WAG", "MG94"):
